@@ -308,7 +308,7 @@ func init() {
 		mc.Register(&mc.ScenarioDef{Scn: &s, Extra: c12Extra})
 	}
 	registerCheck(&CheckDef{Prop: "C12", Level: "model_checking", Technique: "crash-point enumeration on top of the explicit-state search: every explored state of the real core is a crash point; the shim's knowledge is replayed into a new real core in bounded-many orders and the ledgers of the two cores are compared",
-		Quick: []Run{{Scenario: "recover-cap-basic-fair", Depth: 4, MapModes: []int{1}, ExtraDepth: 4}, {Scenario: "recover-gang-Soft", Depth: 4, MapModes: []int{1}, ExtraDepth: 4},
+		Quick: []Run{{Scenario: "recover-cap-basic-fair", Depth: 5, MapModes: []int{1}, ExtraDepth: 5}, {Scenario: "recover-gang-Soft", Depth: 5, MapModes: []int{1}, ExtraDepth: 5},
 			{Scenario: "recover-qmax-dynamic", Depth: 4, MapModes: []int{1}, ExtraDepth: 4}, {Scenario: "recover-ugm-sched-2", Depth: 4, MapModes: []int{1}, ExtraDepth: 4}, {Scenario: "recover-maxapps", Depth: 4, MapModes: []int{1}, ExtraDepth: 4}},
 		Thorough: []Run{{Scenario: "recover-cap-basic-fair", Depth: 8, MapModes: []int{1}, ExtraDepth: 8}, {Scenario: "recover-gang-Soft", Depth: 8, MapModes: []int{1}, ExtraDepth: 8},
 			{Scenario: "recover-qmax-dynamic", Depth: 6, MapModes: []int{1}, ExtraDepth: 6}, {Scenario: "recover-ugm-sched-2", Depth: 6, MapModes: []int{1}, ExtraDepth: 6}, {Scenario: "recover-maxapps", Depth: 6, MapModes: []int{1}, ExtraDepth: 6}},
